@@ -223,6 +223,8 @@ def boxed_cast_flow(src):
             return "CatchBadAny"
         if c == "...":
             return "CatchAll"
+        if c in ("const exception::bad_boxed_cast &", "const chaiscript::exception::bad_boxed_cast &"):
+            return "CatchBadCast"
         raise Shape("boxed_cast: unknown catch clause %r" % c)
     return conds, catch(m.group(2)), catch(m.group(3)), catch(m.group(4))
 
@@ -339,7 +341,7 @@ FLT = ("auto dynamic_lhs(std::dynamic_pointer_cast<const dispatch::Dynamic_Proxy
        "const auto &lhsparamtypes = lhs->get_param_types(); const auto &rhsparamtypes = rhs->get_param_types(); "
        "const auto lhssize = lhsparamtypes.size(); const auto rhssize = rhsparamtypes.size(); "
        "const auto boxed_type = user_type<Boxed_Value>(); const auto boxed_pod_type = user_type<Boxed_Number>(); "
-       "for (size_t i = 1; i < lhssize && i < rhssize; ++i) { const Type_Info &lt = lhsparamtypes[i]; const Type_Info &rt = rhsparamtypes[i]; "
+       "for (size_t i = %START%; i < lhssize && i < rhssize; ++i) { const Type_Info &lt = lhsparamtypes[i]; const Type_Info &rt = rhsparamtypes[i]; "
        "if (lt.bare_equal(rt) && lt.is_const() == rt.is_const()) { continue; } "
        "if (lt.bare_equal(rt) && lt.is_const() && !rt.is_const()) { return false; } if (lt.bare_equal(rt) && !lt.is_const()) { return true; } "
        "if (lt.bare_equal(boxed_type)) { return false; } if (rt.bare_equal(boxed_type)) { return true; } "
@@ -348,8 +350,10 @@ FLT = ("auto dynamic_lhs(std::dynamic_pointer_cast<const dispatch::Dynamic_Proxy
 
 def registration_shape(dk):
     f = norm(function_body(dk, r"static bool function_less_than\(const Proxy_Function &lhs, const Proxy_Function &rhs\) noexcept"))
-    if f != FLT:
+    pre, post = FLT.split("%START%")
+    if not (f.startswith(pre) and f.endswith(post) and re.fullmatch(r"\d", f[len(pre):len(f) - len(post)])):
         raise Shape("function_less_than: body changed")
+    flt_start = int(f[len(pre):len(f) - len(post)])     # slot 0 of get_param_types() is the return type
     a = norm(function_body(dk, r"void add_function\(const Proxy_Function &t_f, const std::string &t_name\)"))
     for need in ("vec.push_back(t_f); std::stable_sort(vec.begin(), vec.end(), &function_less_than);",
                  "return std::make_shared<Dispatch_Function>(std::move(vec));", "} else if (t_f->has_arithmetic_param()) {",
@@ -359,7 +363,7 @@ def registration_shape(dk):
     dc = norm(function_body(dk, r"Boxed_Value do_call\(const Function_Params &params, const Type_Conversions_State &t_conversions\) const override", 0))
     if dc != "return dispatch::dispatch(m_funcs, params, t_conversions);":
         raise Shape("Dispatch_Function::do_call changed")
-    return True
+    return flt_start
 
 
 def data_ptr_shape(bv):
@@ -374,8 +378,22 @@ def data_ptr_shape(bv):
        "const void *get_const_ptr() const noexcept { return m_data->m_const_data_ptr; }" not in n:
         raise Shape("Boxed_Value::get_ptr/get_const_ptr changed")
     # pointer_sentinel (std::shared_ptr<T> & parameters): after the call both cached pointers follow the possibly re-seated shared_ptr
-    if "~Sentinel() { const auto ptr_ = m_ptr.get().get(); m_data.get().m_data_ptr = ptr_; m_data.get().m_const_data_ptr = ptr_; }" not in n:
-        raise Shape("Boxed_Value::pointer_sentinel: the Sentinel destructor does not refresh both m_data_ptr and m_const_data_ptr")
+    sm = re.search(r"~Sentinel\(\) \{ const auto ptr_ = m_ptr\.get\(\)\.get\(\); (.*?) \} Sentinel &operator=", n)
+    if not sm:
+        raise Shape("Boxed_Value::pointer_sentinel: the Sentinel destructor is not recognised")
+    body = sm.group(1)
+    # statements: assignments of ptr_ to the cached pointers, each optionally guarded by `if (<cached pointer> != ptr_) { ... }`
+    body = re.sub(r"if \(m_data\.get\(\)\.(?:m_data_ptr|m_const_data_ptr) != ptr_\) \{ ((?:m_data\.get\(\)\.\w+ = ptr_; ?)+)\}", r"\1", body)
+    stmts = [x.strip() for x in body.split(";") if x.strip()]
+    refreshed = set()
+    for st in stmts:
+        mm = re.fullmatch(r"m_data\.get\(\)\.(m_data_ptr|m_const_data_ptr) = ptr_", st)
+        if not mm:
+            raise Shape("Boxed_Value::pointer_sentinel: unexpected statement in ~Sentinel: %r" % st)
+        refreshed.add(mm.group(1))
+    sentinel = ("m_data_ptr" in refreshed, "m_const_data_ptr" in refreshed)
+    if "auto pointer_sentinel(std::shared_ptr<T> &ptr) const noexcept" not in n or "return Sentinel(ptr, *(m_data.get()));" not in n:
+        raise Shape("Boxed_Value::pointer_sentinel changed")
     if "bool is_const() const noexcept { return m_data->m_type_info.is_const(); }" not in n:
         raise Shape("Boxed_Value::is_const changed")
     # Object_Data::get overloads: the constness recorded in the Type_Info is that of the type held by the Any
@@ -395,7 +413,7 @@ def data_ptr_shape(bv):
     if got != want:
         diff = [k for k in set(got) | set(want) if got.get(k) != want.get(k)]
         raise Shape("Boxed_Value::Object_Data::get overloads changed: %s" % diff)
-    return null_when_const
+    return null_when_const, sentinel
 
 
 def any_shape(anyh):
@@ -440,11 +458,11 @@ def translate(repo):
     rules = cast_helpers(helper)
     vrules = verify_rules(helper)
     conds, c1, c2, c3 = boxed_cast_flow(rd("dispatchkit/boxed_cast.hpp"))
-    null_when_const = data_ptr_shape(rd("dispatchkit/boxed_value.hpp"))
+    null_when_const, sentinel = data_ptr_shape(rd("dispatchkit/boxed_value.hpp"))
     any_shape(rd("dispatchkit/any.hpp"))
     arity_check, ctp, retry, retry2, attr_nullcheck, only_converted = dispatch_shape(rd("dispatchkit/proxy_functions.hpp"))
     call_func_shape(rd("dispatchkit/proxy_functions_detail.hpp"))
-    registration_shape(rd("dispatchkit/dispatchkit.hpp"))
+    flt_start = registration_shape(rd("dispatchkit/dispatchkit.hpp"))
     special_helpers(rd("dispatchkit/boxed_number.hpp"), rd("dispatchkit/function_call.hpp"))
     L = ["(* GENERATED by tools/translate/t_CastRules.py from /repo's working tree -- do not edit *)",
          "From Coq Require Import List Bool.", "From ChaiV Require Import DispatchDefs.", "Import ListNotations.", "",
@@ -466,9 +484,13 @@ def translate(repo):
           "Definition dwc_retry : list retry_class := [%s]." % "; ".join(retry2),
           "(* Attribute_Access::do_call null-checks the object pointer *)", "Definition attr_nullcheck : bool := %s." % coqbool(attr_nullcheck),
           "(* dispatch_with_conversions() calls the chosen overload only when it converted at least one argument *)",
-          "Definition dwc_only_converted : bool := %s." % coqbool(only_converted), "",
+          "Definition dwc_only_converted : bool := %s." % coqbool(only_converted),
+          "(* function_less_than: first slot of get_param_types() it compares (slot 0 is the return type) *)",
+          "Definition flt_start : nat := %d." % flt_start,
+          "(* Boxed_Value::pointer_sentinel: ~Sentinel refreshes m_data_ptr / m_const_data_ptr from the (possibly re-seated) shared_ptr *)",
+          "Definition sentinel_mut : bool := %s." % coqbool(sentinel[0]), "Definition sentinel_const : bool := %s." % coqbool(sentinel[1]), "",
           "Definition gen_rules : rules := mkrules verify_table cast_table data_ptr_null_when_const bc_direct_when bc_direct_catch bc_up_catch bc_down_catch",
-          "  arity_check_present ctp_disjuncts dispatch_retry dwc_retry attr_nullcheck dwc_only_converted.", ""]
+          "  arity_check_present ctp_disjuncts dispatch_retry dwc_retry attr_nullcheck dwc_only_converted flt_start sentinel_mut sentinel_const.", ""]
     return "\n".join(L)
 
 
